@@ -366,6 +366,25 @@ func c07Classify(c *Ctx, fn *ssa.Function, b *ssa.BasicBlock) (string, string) {
 		}
 		return "?", "guarded by " + p
 	}
+	// an error built unconditionally in a small helper: judged where the helper is called
+	cls, detail, n := "", "", 0
+	for _, g := range c.moduleFuncs() {
+		for _, ci := range allCalls(g) {
+			if ci.Common().StaticCallee() != fn || g == fn {
+				continue
+			}
+			n++
+			k, d := c07Classify(c, g, ci.Block())
+			if cls == "" {
+				cls, detail = k, d
+			} else if cls != k {
+				cls = "?"
+			}
+		}
+	}
+	if n > 0 && cls != "" && cls != "?" {
+		return cls, detail + " (at each of the " + fmt.Sprint(n) + " call sites of " + fn.Name() + ")"
+	}
 	return "?", "no guarding condition found"
 }
 
